@@ -19,6 +19,10 @@ func stubKeySerialization() {
 		pt := tinkpb.OutputPrefixType_RAW
 		if sk.req {
 			pt = tinkpb.OutputPrefixType_TINK
+			if stubPrehashIDPrefix && sk.tag%2 == 1 {
+				// as ML-DSA keys of variant NO_PREFIX_WITH_PREHASH_ID serialize
+				pt = tinkpb.OutputPrefixType_WITH_ID_REQUIREMENT
+			}
 		}
 		return protoserialization.NewKeySerialization(&tinkpb.KeyData{TypeUrl: "type.googleapis.com/stub", Value: []byte{byte(sk.tag)}, KeyMaterialType: tinkpb.KeyData_SYMMETRIC}, pt, sk.id)
 	})
@@ -28,9 +32,14 @@ func stubKeySerialization() {
 	})
 }
 
+// stubPrehashIDPrefix: keys with an odd tag and an id requirement serialize with the prefix
+// type WITH_ID_REQUIREMENT.
+var stubPrehashIDPrefix = false
+
 // entries -> Keyset proto -> entries preserves keys, ids, statuses, the primary and the order.
 func VerifH_keyset_proto_roundtrip() {
 	verifrt.NativeSkip("key (de)serialization is summarised")
+	stubPrehashIDPrefix = verifrt.Choice("prehashid", 2) == 1
 	stubKeySerialization()
 	n := 1 + verifrt.Choice("n", 3)
 	m := arbitraryManager(n)
